@@ -1,30 +1,12 @@
 (* ProofsReg.v — the regulator together with tables that follow its instructions (C09): every player is
    in exactly one place, and the regulator's counters are the real numbers. *)
 From Coq Require Import Lia Permutation.
-From PF Require Import Base ModelReg ProofsRegBasic.
+From PF Require Import Base ModelReg ModelSys ProofsRegBasic.
 
-(* ---------- the tables of the environment: (id, members) ---------- *)
-Definition tabs := list (Z * list Z).
-
-Fixpoint add_members (id : Z) (ps : list Z) (ts : tabs) : tabs :=
-  match ts with
-  | [] => []
-  | (i, m) :: rest => if i =? id then (i, m ++ ps) :: rest else (i, m) :: add_members id ps rest
-  end.
-
-Definition apply_event (ts : tabs) (e : revent) : tabs :=
-  match e with
-  | EvRequest id ps => ts ++ [(id, ps)]
-  | EvAssign id ps => add_members id ps ts
-  end.
-
-(* the callbacks of a call, carried out in the order they were made (rs_ev is newest first) *)
-Definition env_of (evs : list revent) (ts0 : tabs) : tabs := fold_left apply_event (rev evs) ts0.
 
 Lemma env_of_cons e evs ts0 : env_of (e :: evs) ts0 = apply_event (env_of evs ts0) e.
 Proof. unfold env_of. cbn [rev]. rewrite fold_left_app. reflexivity. Qed.
 
-Definition members (ts : tabs) : list Z := concat (map snd ts).
 
 (* the regulator's table records agree with the real tables: same ids in the same order, and each
    player count is the real one *)
@@ -392,11 +374,6 @@ Proof.
 Qed.
 
 (* ---------- SyncState ---------- *)
-Fixpoint lookup (id : Z) (ts : tabs) : option (list Z) :=
-  match ts with [] => None | (i, m) :: rest => if i =? id then Some m else lookup id rest end.
-Fixpoint set_members (id : Z) (m' : list Z) (ts : tabs) : tabs :=
-  match ts with [] => [] | (i, m) :: rest => if i =? id then (i, m') :: rest else (i, m) :: set_members id m' rest end.
-Definition remove_table (id : Z) (ts : tabs) : tabs := filter (fun x => negb (fst x =? id)) ts.
 
 Lemma Tcons_lookup rts ts id m : Tcons rts ts -> lookup id ts = Some m ->
   exists t, find_table id rts = Some t /\ t_pc t = zn (length m).
@@ -806,19 +783,6 @@ Qed.
 
 (* ---------- the system as a state machine: any history of registrations, status changes, syncs with
    eliminations, and hand-backs ---------- *)
-Record sys := mkS { s_st : rst; s_tabs : tabs; s_transit : list Z; s_alive : list Z }.
-
-Inductive sop :=
-| SRegister (choices players : list Z)       (* AddPlayers; choices: the order in which the Go map is iterated *)
-| SStatus (choices : list Z) (status : Z)    (* SetStatus *)
-| SSync (id : Z) (out : nat)                 (* `out` players of table id are eliminated, then SyncState(id, out);
-                                                the table carries out the answer *)
-| SRelease (choices : list Z) (k : nat).     (* the first k players in transit are handed back: ReleasePlayers *)
-
-Definition prep (st : rst) (cs : list Z) : rst := mkRst (rs_reg st) [] cs (rs_bad st).
-
-Fixpoint nodupb (l : list Z) : bool := match l with [] => true | x :: t => negb (zmem x t) && nodupb t end.
-Definition fresh_ok (players alive : list Z) : bool := nodupb players && forallb (fun p => negb (zmem p alive)) players.
 
 Lemma zmem_iff x l : zmem x l = true <-> In x l.
 Proof. induction l as [|y t IH]; simpl; [split; [discriminate|intros []]|]. rewrite orb_true_iff, IH, Z.eqb_eq. split; intros [H|H]; auto. Qed.
@@ -835,48 +799,6 @@ Proof.
   intros p Hp Hin. rewrite forallb_forall in H2. specialize (H2 p Hp). apply zmem_iff in Hin. rewrite Hin in H2. discriminate.
 Qed.
 
-Definition sys_step (s : sys) (o : sop) : sys :=
-  match o with
-  | SRegister cs players =>
-      if fresh_ok players (s_alive s) then
-        let r := add_players (prep (s_st s) cs) players in
-        match snd r with
-        | ROk => mkS (fst r) (env_of (rs_ev (fst r)) (s_tabs s)) (s_transit s) (s_alive s ++ players)
-        | _ => s
-        end
-      else s
-  | SStatus cs x =>
-      let st' := do_set_status (prep (s_st s) cs) x in
-      mkS st' (env_of (rs_ev st') (s_tabs s)) (s_transit s) (s_alive s)
-  | SSync id out =>
-      match lookup id (s_tabs s) with
-      | None => s
-      | Some m =>
-          if Nat.leb out (length m) then
-            let res := sync_state (prep (s_st s) []) id (zn out) in
-            let st1 := fst (fst (fst res)) in
-            let rel := snd (fst (fst res)) in
-            let handed := snd (fst res) in
-            let alive' := filter (fun p => negb (zmem p (firstn out m))) (s_alive s) in
-            match find_table id (r_tables (rs_reg st1)) with
-            | Some _ =>
-                let m1 := skipn out m ++ handed in
-                mkS st1 (set_members id (skipn (Z.to_nat rel) m1) (s_tabs s)) (s_transit s ++ firstn (Z.to_nat rel) m1) alive'
-            | None => mkS st1 (remove_table id (s_tabs s)) (s_transit s ++ skipn out m) alive'
-            end
-          else s
-      end
-  | SRelease cs k =>
-      match firstn k (s_transit s) with
-      | [] => s
-      | batch =>
-          let st' := release_players (prep (s_st s) cs) batch in
-          mkS st' (env_of (rs_ev st') (s_tabs s)) (skipn k (s_transit s)) (s_alive s)
-      end
-  end.
-
-Definition sys_init (mx mn : Z) : sys := mkS (mkRst (reg_init mx mn) [] [] false) [] [] [].
-Definition sys_run (s : sys) (ops : list sop) : sys := fold_left sys_step ops s.
 
 Definition SysInv (s : sys) : Prop :=
   Sys (rs_reg (s_st s)) (s_tabs s) (s_transit s) (s_alive s) /\ 0 < r_max (rs_reg (s_st s)).
